@@ -467,7 +467,7 @@ func lowerLeavesGrammar(c rune) bool {
 
 func classifyReparse(ti *treeInfo, printed string) string {
 	if ti.numAfterNum {
-		return "roundtrip:numeric-lookup-after-numeric-lookup"
+		return "reparse:consecutive-numeric-dot-lookups"
 	}
 	for _, v := range ti.textValues {
 		if strings.HasSuffix(v, `\`) {
